@@ -95,7 +95,7 @@ def make_trace(tid, rng, nops=25, **opt):
     tail = rng.choice([0, 0, sector, bs // 2, bs - sector])
     size_b = n * bs - tail
     stale = rng.random() < 0.5
-    blocks = [(st[i], pp[i] if st[i] == 6 else (rng.randrange(0, npos) if (stale and st[i] in (1, 2, 3)) else None)) for i in range(n)]
+    blocks = [(st[i], pp[i] if st[i] == 6 else (rng.randrange(0, max(1, npos)) if (stale and st[i] in (1, 2, 3)) else None)) for i in range(n)]
     fid = rng.randrange(0, 0x90)   # identity of this image: the pattern file id its payload carries
     vf, info = enc_vhdx.build(blocks, block_size=bs, sector_size=sector, disk_size=size_b, seqs=rng.choice([(5, 6), (6, 5), (0, 1), (7, 7)]),
                               reserved_bits=rng.choice([0, 0, 0x1FFFF]), leave_alloc=rng.random() < 0.3,
